@@ -208,7 +208,7 @@ namespace ratio
     void fire_read(const std::vector<std::string> &files) const noexcept;
     CORE_EXPORT void fire_state_changed() const noexcept;
     CORE_EXPORT void fire_started_solving() const noexcept;
-    CORE_EXPORT void fire_solution_found() const noexcept;
+    CORE_EXPORT void fire_solution_found() const; // listeners may give up (e.g. the executor, when the plan cannot be executed any more)..
     CORE_EXPORT void fire_inconsistent_problem() const noexcept;
 #endif
   };
